@@ -133,7 +133,8 @@ CHECKS = {
         "technique": "property-based testing (rapid) on a fake clock (testing/synctest) with exact time arithmetic as oracle",
         "rule": ("kinds 'sleep' and 'ticker'. non-trivial: sleep = a deadline strictly inside (0,d), a mid-sleep cancel, or deadline+cancel; ticker = in-domain with jitter in {0, d-1} or a Reset/Stop in the timeline; distinct = distinct plan JSON"),
         "assumptions": ["testing/synctest fake clock", "rapid v1.3.0; go1.26.8"],
-        "jobs": [{"pkg": "c20time", "kinds": ["sleep", "ticker"], "scale_thorough": 10, "shards_thorough": 16}],
+        "jobs": [{"pkg": "c20time", "kinds": ["sleep", "ticker"], "scale_thorough": 10, "shards_thorough": 16},
+                 {"pkg": "c20old", "kinds": ["sleep-old-timers"], "scale_thorough": 4, "shards_thorough": 4}],
     },
     "C16": {
         "level": "exploration",
